@@ -1255,12 +1255,14 @@ func lastStoredIs(v, target ssa.Value) bool {
 // closesOnError: d defers a function literal that closes db on every one of its paths on which fn's (named) error
 // result is non-nil: `defer func() { if err != nil { db.Close() } }()`.
 func closesOnError(c *Ctx, fn *ssa.Function, d *ssa.Defer, db ssa.Value) bool {
-	mc, ok := d.Call.Value.(*ssa.MakeClosure)
-	if !ok {
-		return false
+	var h *ssa.Function
+	var helperDB, helperErr ssa.Value // for `defer closeOnError(db, &err)`: the helper's parameters bound to db and &err
+	if mc, ok := d.Call.Value.(*ssa.MakeClosure); ok {
+		h, _ = mc.Fn.(*ssa.Function)
+	} else if g := d.Call.StaticCallee(); g != nil && c.w.inModule(g) && g.Blocks != nil {
+		h = g
 	}
-	h, ok := mc.Fn.(*ssa.Function)
-	if !ok || h.Blocks == nil {
+	if h == nil || h.Blocks == nil {
 		return false
 	}
 	// fn's error result cell
@@ -1279,10 +1281,30 @@ func closesOnError(c *Ctx, fn *ssa.Function, d *ssa.Defer, db ssa.Value) bool {
 	if errCell == nil {
 		return false
 	}
+	if _, isClosure := d.Call.Value.(*ssa.MakeClosure); !isClosure {
+		// a named helper: it must be given this database and the address of this function's error result
+		for k, a := range d.Call.Args {
+			if k >= len(h.Params) {
+				break
+			}
+			if peel(a) == db {
+				helperDB = h.Params[k]
+			}
+			if peelCell(a) == errCell {
+				helperErr = h.Params[k]
+			}
+		}
+		if helperDB == nil || helperErr == nil {
+			return false
+		}
+	}
 	isErrLoad := func(v ssa.Value) bool {
 		ld, ok := v.(*ssa.UnOp)
 		if !ok || ld.Op != token.MUL {
 			return false
+		}
+		if helperErr != nil {
+			return ld.X == helperErr
 		}
 		return peelCell(ld.X) == errCell
 	}
@@ -1293,6 +1315,9 @@ func closesOnError(c *Ctx, fn *ssa.Function, d *ssa.Defer, db ssa.Value) bool {
 		}
 		if _, isDefer := i.(*ssa.Defer); isDefer {
 			return false
+		}
+		if helperDB != nil {
+			return peel(cc.Args[0]) == helperDB
 		}
 		return peel(cc.Args[0]) == db
 	}
